@@ -344,6 +344,24 @@ def opaque_body(t: int, variant: int) -> bytes:
     return bytes((t * 7 + i * 13 + variant) & 0xFF for i in range(4 + (t % 5)))
 
 
+FIN_VARIANTS = ("badmac", "empty", "trunc", "trunc1", "long")
+
+
+def mangle_verify_data(vd: bytes, variant: str) -> bytes:
+    """ok | badmac (last bit flipped) | empty | trunc (first half) | trunc1 (all but the last byte) | long (+1 byte)"""
+    if variant == "badmac":
+        return vd[:-1] + bytes([vd[-1] ^ 1])
+    if variant == "empty":
+        return b""
+    if variant == "trunc":
+        return vd[: len(vd) // 2]
+    if variant == "trunc1":
+        return vd[:-1]
+    if variant == "long":
+        return vd + b"\x00"
+    return vd
+
+
 class _Peer:
     """transcript handling common to both roles"""
 
@@ -416,18 +434,24 @@ class RogueServer(_Peer):
         return msg
 
     # -- flight messages (each call appends to the adversary's transcript)
-    def encrypted_extensions(self) -> bytes:
+    def encrypted_extensions(self, variant: str = "ok") -> bytes:
+        """variants: ok | early (+early_data indication) | early_alpn (+early_data, +ALPN even if not negotiated) |
+        unknown (+an extension nobody asked for)"""
         exts = b""
-        if self.alpn is not None:
-            exts += ext(16, vec(2, vec(1, self.alpn)))
+        if self.alpn is not None or variant == "early_alpn":
+            exts += ext(16, vec(2, vec(1, self.alpn or b"vf")))
         exts += self.ee_extensions
+        if variant in ("early", "early_alpn"):
+            exts += ext(42, b"")
+        if variant == "unknown":
+            exts += ext(0xFACE, b"\x01\x02\x03")
         return self.emit(hs_msg(EE, vec(2, exts)))
 
     def certificate_request(self) -> bytes:
         return self.emit(hs_msg(CR, body_certificate_request()))
 
-    def certificate(self) -> bytes:
-        return self.emit(hs_msg(CERT, body_certificate(self.ident.chain)))
+    def certificate(self, empty: bool = False) -> bytes:
+        return self.emit(hs_msg(CERT, body_certificate([] if empty else self.ident.chain)))
 
     def certificate_verify(self, variant: str = "ok") -> bytes:
         data = b" " * 64 + SERVER_CV_CTX + b"\x00" + self.sched.thash()
@@ -439,9 +463,7 @@ class RogueServer(_Peer):
         return self.emit(hs_msg(CV, body_certificate_verify(alg, sig)))
 
     def finished(self, variant: str = "ok") -> bytes:
-        vd = self.sched.finished(self.sched.s_hs)
-        if variant == "badmac":
-            vd = vd[:-1] + bytes([vd[-1] ^ 1])
+        vd = mangle_verify_data(self.sched.finished(self.sched.s_hs), variant)
         msg = self.emit(hs_msg(FIN, vd))
         self.sched.set_app()
         return msg
@@ -592,9 +614,7 @@ class RogueClient(_Peer):
         return self.emit(hs_msg(CV, body_certificate_verify(alg, sig)))
 
     def finished(self, variant: str = "ok") -> bytes:
-        vd = self.sched.finished(self.sched.c_hs)
-        if variant == "badmac":
-            vd = vd[:-1] + bytes([vd[-1] ^ 1])
+        vd = mangle_verify_data(self.sched.finished(self.sched.c_hs), variant)
         return self.emit(hs_msg(FIN, vd))
 
     def typed(self, t: int, variant: int = 0) -> bytes:
